@@ -261,8 +261,45 @@ macro_rules! arith_harness {
 arith_harness!(c20_int_add_exact, B::Plus);
 arith_harness!(c20_int_sub_exact, B::Minus);
 arith_harness!(c20_int_mul_exact, B::Multiply);
-arith_harness!(c20_int_div_exact, B::Divide); //@solver=z3
-arith_harness!(c20_int_mod_exact, B::Modulo); //@solver=z3
+arith_harness!(c20_int_div_exact, B::Divide); //@tier=thorough
+arith_harness!(c20_int_mod_exact, B::Modulo); //@tier=thorough
+
+//@ props=C20 kind=proof
+/// division and modulo by zero yield NULL for EVERY dividend (no division is executed), and NULL operands
+/// yield NULL
+#[kani::proof]
+#[kani::stub(eyre::capture_handler, vs::capture_handler)]
+#[kani::stub(eyre::private::new_adhoc, vs::new_adhoc)]
+#[kani::stub(eyre::private::format_err, vs::format_err)]
+#[kani::stub(alloc::fmt::format, vs::format)]
+#[kani::unwind(2)]
+fn c20_div_mod_by_zero_is_null() {
+    let p = pred();
+    let a: i64 = kani::any();
+    assert!(p.eval_binary_op(&Value::Int(a), &B::Divide, &Value::Int(0)).is_none());
+    assert!(p.eval_binary_op(&Value::Int(a), &B::Modulo, &Value::Int(0)).is_none());
+    assert!(matches!(p.eval_binary_op(&Value::Null, &B::Divide, &Value::Int(a)), None | Some(Value::Null)));
+    assert!(matches!(p.eval_binary_op(&Value::Int(a), &B::Modulo, &Value::Null), None | Some(Value::Null)));
+    core::mem::forget(p);
+}
+
+//@ props=C20 kind=bounded tier=thorough timeout=3000 bound="operands in -32768..=32767 (64-bit division equivalence over all i64 is the thorough-tier obligation c20_int_div_exact / c20_int_mod_exact)"
+/// Int / Int and Int % Int (truncating, sign of the dividend) for 16-bit operands: exactly checked_div / checked_rem
+#[kani::proof]
+#[kani::stub(eyre::capture_handler, vs::capture_handler)]
+#[kani::stub(eyre::private::new_adhoc, vs::new_adhoc)]
+#[kani::stub(eyre::private::format_err, vs::format_err)]
+#[kani::stub(alloc::fmt::format, vs::format)]
+#[kani::unwind(2)]
+fn c20_int_div_mod_small_operands() {
+    let p = pred();
+    let (a, b): (i16, i16) = (kani::any(), kani::any());
+    kani::assume(b != 0);
+    let (a, b) = (a as i64, b as i64);
+    match p.eval_binary_op(&Value::Int(a), &B::Divide, &Value::Int(b)) { Some(Value::Int(q)) => assert!(Some(q) == a.checked_div(b)), _ => assert!(false) }
+    match p.eval_binary_op(&Value::Int(a), &B::Modulo, &Value::Int(b)) { Some(Value::Int(r)) => assert!(Some(r) == a.checked_rem(b)), _ => assert!(false) }
+    core::mem::forget(p);
+}
 
 //@ props=C20 kind=known finding=F-C20-1
 /// KNOWN FINDING F-C20-1: integer overflow must be reported, not wrapped and not a crash: for all i64
